@@ -144,6 +144,11 @@ func rank(k Key) int {
 	return k.I
 }
 
+// tkey is a typed-integer map key, written `(num n)` in the program.  It is a key of maps only (exact
+// integers hash to themselves: 17 of them force an array node at the root of the hash trie); as a
+// map key it is distinct from the text "n", so it gets its own place in the canonical order.
+func tkey(n int) Key { return Key{S: fmt.Sprintf("(num %d)", n), I: 2000 + n} }
+
 func project(v any) Val {
 	budget := 20000
 	return projectD(v, 0, &budget)
@@ -173,11 +178,14 @@ func projectD(v any, depth int, budget *int) Val {
 		var ps []kv
 		for it := v.Iterator(); it.HasElem(); it.Next() {
 			k, val := it.Elem()
-			ks, ok := k.(string)
-			if !ok {
+			switch k := k.(type) {
+			case string:
+				ps = append(ps, kv{keyOf(k), projectD(val, depth+1, budget)})
+			case int:
+				ps = append(ps, kv{tkey(k), projectD(val, depth+1, budget)})
+			default:
 				return Val{T: "other:mapkey", E: []Val{}, Ks: []Key{}}
 			}
-			ps = append(ps, kv{keyOf(ks), projectD(val, depth+1, budget)})
 		}
 		sort.SliceStable(ps, func(i, j int) bool { return rank(ps[i].k) < rank(ps[j].k) })
 		out := Val{T: "m", E: []Val{}, Ks: []Key{}}
@@ -638,6 +646,87 @@ func growHistory(c *lib.Ctx, r *rand.Rand, variant int) []Event {
 	run := newRunner(init)
 	evs := []Event{{O: Op{Op: "Reset", P: []Key{}, P2: []Key{}, V: VDesc{Src: "atom"}, V2: VDesc{Src: "atom"}}, Mid: errVal, Store: run.store(), Al: []Val{}}}
 	growOps(r, run, where, x, keep, func(o Op) { evs = append(evs, step(c, run, o)) })
+	c.AddEvals(run.evals)
+	return evs
+}
+
+// growShrinkHistory: a map (at the top, inside a list, inside a map) grows to 17..40 keys - exact
+// integers 0..N, whose hashes differ in the low bits so that the root of the trie becomes an array
+// node, or 30+ texts - and is then emptied key by key.  Aliases are taken now and then while it
+// grows and at EVERY size from 12 keys down (the array node is packed back into a bitmap node when
+// one of its last 8 occupied slots empties); every alias is re-read in full after every step.
+// Variant 0 is the directed probe: keys 0..16 added and deleted in order.
+func growShrinkHistory(c *lib.Ctx, r *rand.Rand, variant int) []Event {
+	var init, x string
+	var where []Key
+	switch variant % 3 {
+	case 0:
+		init, x, where = "var x = [&]\nvar y = [(num 7) [&]]\n", "x", []Key{}
+	case 1:
+		init, x, where = "var x = [(num 7) [&] [&]]\nvar y = [&]\n", "x", []Key{keyOf("2")}
+	default:
+		init, x, where = "var x = (num 5)\nvar y = [&k=[&] &m=[(num 1) [&]]]\n", "y", []Key{keyOf("k")}
+	}
+	var keys []Key
+	switch (variant / 3) % 3 {
+	case 0, 1:
+		n := 17
+		if variant >= 3 {
+			n = 17 + r.Intn(24)
+		}
+		for i := 0; i < n; i++ {
+			keys = append(keys, tkey(i))
+		}
+	default:
+		for _, i := range r.Perm(len(keyPool))[:30+r.Intn(11)] {
+			keys = append(keys, keyOf(keyPool[i]))
+		}
+	}
+	delOrder := make([]int, len(keys))
+	for i := range delOrder {
+		delOrder[i] = i
+	}
+	if variant != 0 {
+		r.Shuffle(len(keys), func(i, j int) { keys[i], keys[j] = keys[j], keys[i] })
+		delOrder = r.Perm(len(keys))
+	}
+	run := newRunner(init)
+	evs := []Event{{O: Op{Op: "Reset", P: []Key{}, P2: []Key{}, V: VDesc{Src: "atom"}, V2: VDesc{Src: "atom"}}, Mid: errVal, Store: run.store(), Al: []Val{}}}
+	record := func(o Op) { evs = append(evs, step(c, run, o)) }
+	blank := func() Op {
+		return Op{X: x, P: []Key{}, P2: []Key{}, V: VDesc{Src: "atom"}, V2: VDesc{Src: "atom"}}
+	}
+	names := 0
+	take := func() {
+		o := blank()
+		names++
+		o.Op, o.Name = "TakeAlias", fmt.Sprintf("s%d", names)
+		o.Kind = []string{"var", "closure", "output", "share", "sub"}[names%5]
+		if o.Kind == "sub" {
+			if len(where) == 0 {
+				o.Kind = "var"
+			} else {
+				o.P = append([]Key{}, where...)
+			}
+		}
+		record(o)
+	}
+	for n, k := range keys {
+		o := blank()
+		o.Op, o.P, o.V = "SetElem", append(append([]Key{}, where...), k), VDesc{Src: "atom", N: 100 + n}
+		record(o)
+		if n%7 == 6 {
+			take()
+		}
+	}
+	for n, di := range delOrder {
+		if left := len(keys) - n; left <= 12 || n%9 == 0 {
+			take()
+		}
+		o := blank()
+		o.Op, o.P = "DelElem", append(append([]Key{}, where...), keys[di])
+		record(o)
+	}
 	c.AddEvals(run.evals)
 	return evs
 }
